@@ -17,4 +17,7 @@ def check(run, replay=None):
     return msgprops.check(run, "C17", "Props/C17", THEOREMS, {"c03": True, "c17": True}, replay,
                           translated=[("Props/C17T", THEOREMS_T), ("Props/C17P", THEOREMS_P),
                                       ("Props/C17F", ["c17_translated_field_of_a_parameter", "c17_translated_field_is_emitted_with_its_attributes",
-                                                      "c17_translated_fields_of_a_signature"])])
+                                                      "c17_translated_fields_of_a_signature"]),
+                                      # the hand model of the core theorems and the specification proved of the translated code agree
+                                      ("Props/C17B", ["c17_hand_model_forwards_what_the_translated_parser_collects",
+                                                      "c17_hand_model_filter_is_the_translated_filter"])])
